@@ -76,17 +76,35 @@ func compileWith(p *im.Program, orders map[string][]string) outcome {
 	return outcome{ok: true, dump: cdump.Module(m)}
 }
 
-func compilePlain(p *im.Program) outcome {
+// entrySpellings: how a caller may name the entry file (the in-memory file system resolves
+// relative paths against its root, as a working directory would).
+var entrySpellings = []func(rel string) string{
+	func(rel string) string { return cdump.Root + rel },
+	func(rel string) string { return rel },
+	func(rel string) string { return "./" + rel },
+	func(rel string) string { return "zz/../" + rel },
+	func(rel string) string { return cdump.Root + "./" + rel },
+	func(rel string) string { return "/r/../r//" + rel },
+}
+
+func compilePlain(p *im.Program, i int) outcome {
 	opts := []compile.Option{compile.Filesystem(cdump.FSOf(p))}
 	if p.NonStrict {
 		opts = append(opts, compile.NonStrict())
 	}
-	m, err := compile.Compile(cdump.Entry(p), opts...)
+	// the plain compilations also vary the spelling of the entry path
+	// (a function of the case: the i-th repetition of a program always uses the same spelling)
+	entry := entrySpellings[(i+len(p.Files)+len(p.Files[0].Path))%len(entrySpellings)](p.Files[0].Path)
+	m, err := compile.Compile(entry, opts...)
 	if err != nil {
 		return outcome{err: err.Error()}
 	}
+	if ierr := cdump.OneModulePerFile(m); ierr != nil {
+		return outcome{ok: true, dump: "MODULE GRAPH: " + ierr.Error() + " (entry spelled " + entry + ")\n" + cdump.Module(m)}
+	}
 	return outcome{ok: true, dump: cdump.Module(m)}
 }
+
 
 // shapeKey classifies where a dump difference sits (for the classifier key).
 func shapeKey(diff string) string {
@@ -137,7 +155,7 @@ func checkCase(c Case) error {
 		return ev.Errf("order-dependent/"+shapeKey(d), "compiled graph differs between sorted order (A) and drawn order (B): %s", d)
 	}
 	for i := 0; i < c.Natural; i++ {
-		n := compilePlain(p)
+		n := compilePlain(p, i)
 		if n.ok != base.ok {
 			return ev.Errf("order-dependent/outcome/natural", "plain Compile run %d succeeds=%v, hook-ordered compile succeeds=%v (errors: %q / %q)", i, n.ok, base.ok, n.err, base.err)
 		}
